@@ -244,11 +244,15 @@ def analyse(chk, results, hist):
         csf = cs_fire_seen(real)
         for f in fails:
             info = {"kind": f["kind"], "model_agrees": agrees}
+            # attribution (informational; no finding is open): the run is not the modelled code at all / the failure
+            # disappears with the intended comparisons / an expiry hit a critical section / none of these
             if f["kind"] == "early":
-                info["cause"] = ("time-eq-typo" if f["id"] not in early_int else
-                                 "reschedule-in-cs" if csf else "unexplained")
+                info["cause"] = ("code-differs-from-model" if not agrees else
+                                 "comparison-operators" if f["id"] not in early_int else
+                                 "expiry-in-critical-section" if csf else "unexplained")
             elif f["kind"] == "late":
-                info["cause"] = "reschedule-in-cs" if csf else "unexplained"
+                info["cause"] = ("code-differs-from-model" if not agrees else
+                                 "expiry-in-critical-section" if csf else "unexplained")
             hk = "fail:" + f["kind"] + ":" + str(info.get("cause", "-"))
             hist[hk] = hist.get(hk, 0) + 1
             if chk.match_finding(info) is None:
